@@ -496,6 +496,9 @@ func (g *Gen) genSend() *eng.Tx {
 	if m.Recipient == m.Sender && !g.hostile() {
 		m.Recipient = g.otherActor(m.Sender)
 	}
+	if g.hostile() && g.chance(0.15) {
+		m.Recipient = strings.ToUpper(m.Sender) // a send to oneself under another spelling of the address
+	}
 	n := 1 + g.R.Intn(2)
 	for i := 0; i < n; i++ {
 		c := &basetypes.MsgSend_SendCredits{BatchDenom: g.batchDenom(b)}
